@@ -289,7 +289,6 @@ class Base:
 
             return result
 
-        all_operations = operations.leaf_operations_symbolic_with_union
         # special case: if self is one of the args, we do not copy annotations over from self since child
         # annotations will be re-processed during AST creation.
         if annotations is None:
@@ -301,7 +300,8 @@ class Base:
             # only a symbol's variables cannot be derived from its arguments; a "union" over new arguments must
             # not inherit the variables of the arguments that were replaced
             variables = self.variables
-        if symbolic is None and op in all_operations:
+        if symbolic is None and op in operations.leaf_operations_symbolic:
+            # (like the variables: only for a symbol; a "union" over new arguments is symbolic if one of them is)
             symbolic = self.symbolic
 
         return type(self)(
